@@ -35,6 +35,7 @@ type dwalk struct {
 	phi    map[*ssa.Phi]ssa.Value
 	oob    bool
 	consts map[string]bool
+	depth  int
 }
 
 func (d *dwalk) eval(v ssa.Value) dval {
@@ -64,6 +65,13 @@ func (d *dwalk) eval(v ssa.Value) dval {
 		in := d.eval(x.X)
 		if in.kind == "int" && isIntType(x.Type()) {
 			return in
+		}
+	case *ssa.Extract:
+		// one result of a module helper that looks at the text only (picks radix and stripped text together)
+		if hc, ok := x.Tuple.(*ssa.Call); ok {
+			if rs, ok := d.callTuple(hc); ok && x.Index < len(rs) {
+				return rs[x.Index]
+			}
 		}
 	case *ssa.Slice:
 		sv := d.eval(x.X)
@@ -185,6 +193,78 @@ func (d *dwalk) eval(v ssa.Value) dval {
 		}
 	}
 	return dval{}
+}
+
+// callTuple: the results of a module helper for this text, when every condition on the way is decided by the text.
+func (d *dwalk) callTuple(call *ssa.Call) ([]dval, bool) {
+	h := call.Common().StaticCallee()
+	if h == nil || len(h.Blocks) == 0 || d.depth > 2 {
+		return nil, false
+	}
+	// the helper's string parameter gets the argument's value
+	var hp *ssa.Parameter
+	var hv dval
+	for i, p := range h.Params {
+		if i < len(call.Common().Args) {
+			if v := d.eval(call.Common().Args[i]); v.kind == "str" {
+				if hp != nil {
+					return nil, false
+				}
+				hp, hv = p, v
+			}
+		}
+	}
+	if hp == nil {
+		return nil, false
+	}
+	sub := &dwalk{text: hp, w: hv.s, phi: map[*ssa.Phi]ssa.Value{}, depth: d.depth + 1}
+	b := h.Blocks[0]
+	var from *ssa.BasicBlock
+	for steps := 0; steps < 64; steps++ {
+		if from != nil {
+			for _, ins := range b.Instrs {
+				p, ok := ins.(*ssa.Phi)
+				if !ok {
+					break
+				}
+				for i, pr := range b.Preds {
+					if pr == from {
+						sub.phi[p] = p.Edges[i]
+					}
+				}
+			}
+		}
+		switch t := b.Instrs[len(b.Instrs)-1].(type) {
+		case *ssa.Return:
+			var out []dval
+			for _, r := range t.Results {
+				out = append(out, sub.eval(r))
+			}
+			if sub.oob {
+				d.oob = true
+			}
+			return out, true
+		case *ssa.If:
+			v := sub.eval(t.Cond)
+			if v.kind != "bool" || sub.oob {
+				if sub.oob {
+					d.oob = true
+				}
+				return nil, false
+			}
+			from = b
+			if v.b {
+				b = b.Succs[0]
+			} else {
+				b = b.Succs[1]
+			}
+		case *ssa.Jump:
+			from, b = b, b.Succs[0]
+		default:
+			return nil, false
+		}
+	}
+	return nil, false
 }
 
 func (d *dwalk) index(xv, iv ssa.Value) dval {
